@@ -453,7 +453,7 @@ func c14Gen(r *mon.Rand) []string {
 	}
 	stray := func() {
 		if r.Chance(1, 14) {
-			argv = append(argv, mon.Pick(r, []string{"extra", "always", "/etc/shadow", "uid=0", "-", "--", "-x", "-h", "all", "x y", "", " ", "\t", "0", "#", "#", "#comment", "#-k", "a#b"}))
+			argv = append(argv, mon.Pick(r, []string{"extra", "always", "/etc/shadow", "uid=0", "-", "--", "-x", "-h", "all", "x y", "", " ", "\t", "0", "#", "#", "#comment", "#-k", "a#b", "-D=junk", "-D=-k", "-D=", "-D=-w/etc/passwd"}))
 		}
 	}
 	kind := r.Intn(10)
